@@ -8,6 +8,17 @@ TB = ("Lean 4.33 kernel; axioms propext, Classical.choice, Quot.sound only (audi
       "Lean runtime executing nvdriver for the correspondence only.")
 
 CHECKS = {
+    "C10": dict(
+        text=("Lean 4 theorems, unbounded: for the string pool, the function table and the import table (with parameter-type tables) the "
+              "loader's section parser recovers exactly what the serialiser wrote, field by field, wherever the section sits in a file "
+              "(strings_roundtrip, functions_roundtrip, imports_roundtrip, by induction over the entry list in exact little-endian widths); "
+              "re-inserting a duplicate-free pool through nvm_add_string reproduces it; serialising the reloaded import form writes the same "
+              "bytes; the exit-status logic of nano_virt --run, nano_vm and the wrapper agrees (exit_agree). The directory/assembly level "
+              "(header, section order, offsets, CRC) is not proved end to end; it is tied by correspondence: model bytes == nvm_serialize "
+              "bytes and reload == original on compiler-produced and directly built modules, and programs are run all three ways."),
+        note=TB + " Partial: whole-file deserialize(serialize m) = m is proved per section, not as one theorem; the debug section is covered by correspondence only; process exit status and wrapper linking are observed, not modelled.",
+        technique="Lean 4 proof (induction over entry lists, little-endian codec lemmas) + translator + differential correspondence + three-way execution",
+        design="6/C10"),
     "C11": dict(
         text=("Machine-checked Lean 4 theorems over the instruction table regenerated from isa.c on every run: decode(encode i ++ rest) = i "
               "for every defined opcode, every in-range operand value and every suffix; encode(decode b) = consumed bytes; every undefined "
